@@ -267,6 +267,31 @@ pub fn lit258_inputs(thorough: bool) -> Vec<Input> {
     v
 }
 
+/// Incompressible inputs with a *dosed* amount of redundancy at the front (200 bytes, the same 200
+/// again, and their first k bytes once more, k swept): the compressor cuts a block as "not
+/// compressing" as soon as the code bytes catch up with the input bytes, so the first block ends
+/// at every offset between 31 744 and ~33 000 as k varies - around the point where the block no
+/// longer fits the dictionary together with the look-ahead.
+pub fn fat_edge_inputs(thorough: bool) -> Vec<Input> {
+    let mut l = crate::util::Lcg(0xfa7 ^ crate::util::seed());
+    let noise: Vec<u8> = (0..41_000).map(|_| l.byte()).collect();
+    let mut v = vec![];
+    for k in (0..=(if thorough { 600usize } else { 400 })).step_by(1) {
+        let mut d: Vec<u8> = noise[..200].to_vec();
+        d.extend_from_slice(&noise[..200]);
+        let mut left = k;
+        while left > 0 {
+            let t = left.min(200);
+            d.extend_from_slice(&noise[..t]);
+            left -= t;
+        }
+        let fill = 40_000 - d.len();
+        d.extend_from_slice(&noise[400..400 + fill]);
+        v.push(Input { name: format!("fat-edge:k{}", k), data: d });
+    }
+    v
+}
+
 /// Long inputs (66–200 KB): flush_block runs mid-call, blocks partially drained.
 pub fn long_inputs() -> Vec<Input> {
     vec![
